@@ -556,6 +556,8 @@ impl<'a, 'b> Sem<'a, 'b> {
                         .choose(&[
                             "id", "title", "value", "data-x", "aria-label", "foo", "xlink:href", "a:b",
                             "key", "ref", "type", "once", "modelValue", "innerHTML",
+                            // names at the boundary of the directive rule (`v-` / `v[A-Z]` only)
+                            "v", "v1", "v_size", "v$", "value2", "vmodel",
                         ])
                         .to_string();
                     if used_plain.contains(&name) {
